@@ -1,2 +1,429 @@
-(* Property C19 - statements only (proofs in Proofs/C19.v). Not built yet. *)
-From SC.Model Require Import Base.
+(* Property C19 - every configured language is a relabelling of the same calculator.
+   STATEMENTS ONLY (proofs: Proofs/C19.v).
+
+   Model functions: Api.execute / execute_text / tokinize (exec64 = execute at binary64 on the loaded
+   configuration), Lexer.month_parser / text_body / get_field_type / alias_tokinizer, Rules.rule_tokinizer,
+   RuleFns.call_rule (duration_parse, as_duration -> constant_of), Format.format_result (lang_format, month_info).
+   Data regenerated from /repo/src/json/config.json on every run: Gen/ConfigData (d_constant_pair, d_word_group,
+   d_months, d_format, d_lang_alias, d_rule_texts loaded into cf_rules default_config) and Gen/Regexes
+   (g_lang_alias, g_months).  Languages: en, tr.
+
+   Vocabulary defined in Proofs/C19.v:
+     same_tables lx cfg l l'   the six per-language lookups (constant_pair, word_group, rules, format of the
+                               configuration; language aliases and month regexes of the lexer data) give the same
+                               entry for the tags l and l';   unknown_tag: all six give None
+     L_en, L_tr, u "..."       the tags "en" / "tr"; a UTF-8 literal of the source as code points
+     consts_of, words_for, group_of, months_of, month_res, aliases_of, rules_of   the regenerated tables of a language
+     skeleton / field_skeleton a rule's patterns up to keyword words: fields keep kind and name, a literal word is "#"
+                               (field_skeleton: without the positions of the words, with their number)
+     rules_on, same_rewrite    the rule loop (the language-keyed stage after the lexer) on given token infos under
+                               en and tr
+     values, prints            per line of a text: the value or error message / the printed text, through exec64 at
+                               the clock CK22 (1 jan 2022)
+   What is proved of the full statement and what only the correspondence check covers: C19_full_partial. *)
+From Coq Require Import Floats ZArith.
+From SC.Model Require Import Base Num NumF64 Types Config Case Rx Parser RuleFns Rules Format Lexer Api Run64.
+From SC.Spec Require Import Calendar.
+From SC.Gen Require Import ConfigData Regexes.
+From SC.Proofs Require Import C19.
+
+(* ---- the language tag is only a key into per-language tables: ALL lines, configurations, number algebras ---- *)
+Theorem C19_lang_only_selects_tables :
+  forall {F} {NF : Num F} (lx : lexdata) (cfg : config F) (ck : clock) (l l' : str),
+  same_tables lx cfg l l' ->
+  (forall vs line, execute_text lx ck cfg l vs line = execute_text lx ck cfg l' vs line) /\
+  (forall text, execute lx ck cfg l text = execute lx ck cfg l' text) /\
+  (forall today line, token_infos lx today cfg l line = token_infos lx today cfg l' line).
+Proof.
+  intros F NF lx cfg ck l l' H. split; [|split].
+  - intros. apply execute_text_lang, H.
+  - intros. apply execute_lang, H.
+  - intros. apply token_infos_lang, H.
+Qed.
+
+(* what same_tables says, and the corollary for tags no table knows *)
+Theorem C19_same_tables_unfold : forall {F} {NF : Num F} (lx : lexdata) (cfg : config F) l l',
+  same_tables lx cfg l l' <->
+  assoc l (cf_constant_pair cfg) = assoc l' (cf_constant_pair cfg) /\
+  assoc l (cf_word_group cfg) = assoc l' (cf_word_group cfg) /\
+  assoc l (cf_rules cfg) = assoc l' (cf_rules cfg) /\
+  assoc l (cf_format cfg) = assoc l' (cf_format cfg) /\
+  assoc l (lx_lang_alias lx) = assoc l' (lx_lang_alias lx) /\
+  assoc l (lx_months lx) = assoc l' (lx_months lx).
+Proof. intros. reflexivity. Qed.
+
+Theorem C19_unknown_tags_alike :
+  (forall {F} {NF : Num F} (lx : lexdata) (cfg : config F) ck l l' text,
+     unknown_tag lx cfg l -> unknown_tag lx cfg l' -> execute lx ck cfg l text = execute lx ck cfg l' text) /\
+  (forall ck l l' text, unknown_tag LX default_config l -> unknown_tag LX default_config l' ->
+     exec64 ck default_config l text = exec64 ck default_config l' text) /\
+  unknown_tag LX default_config (s "de") /\ unknown_tag LX default_config (s "xx") /\ unknown_tag LX default_config [] /\
+  ~ same_tables LX default_config L_en L_tr.
+Proof.
+  split; [intros; apply unknown_tags_alike; assumption|].
+  split; [exact unknown_tags_default|exact unknown_tag_examples].
+Qed.
+
+(* ---- the regenerated tables of en and tr are parallel ---- *)
+Theorem C19_tables_languages :
+  d_languages = [L_en; L_tr] /\
+  map fst (cf_constant_pair default_config) = [L_en; L_tr] /\ map fst (cf_word_group default_config) = [L_en; L_tr] /\
+  map fst (cf_rules default_config) = [L_en; L_tr] /\ map fst (cf_months default_config) = [L_en; L_tr] /\
+  map fst (cf_format default_config) = [L_en; L_tr] /\
+  map fst (lx_lang_alias LX) = [L_en; L_tr] /\ map fst (lx_months LX) = [L_en; L_tr] /\
+  cf_constant_pair default_config = d_constant_pair /\ cf_word_group default_config = d_word_group /\
+  cf_months default_config = d_months /\ cf_format default_config = d_format.
+Proof. exact configured_languages. Qed.
+
+(* every constant (second .. year, today, tomorrow, yesterday, now) has a keyword in both languages; a keyword of
+   one language has a counterpart for the same constant in the other; the duration keywords are exactly the
+   words of the language's duration_group; tr has no conversion words and no number-base words *)
+Theorem C19_tables_parallel_constants :
+  (forall c : consttype, words_for L_en c <> [] /\ words_for L_tr c <> []) /\
+  (forall lang lang' w c, In lang [L_en; L_tr] -> In lang' [L_en; L_tr] ->
+     In (w, c) (consts_of lang) -> exists w', assoc w' (consts_of lang') = Some c) /\
+  (forall lang, In lang [L_en; L_tr] ->
+     (forall w c, In (w, c) (consts_of lang) -> is_unit c = true -> In w (group_of lang "duration_group")) /\
+     (forall w, In w (group_of lang "duration_group") ->
+        exists c, assoc w (consts_of lang) = Some c /\ is_unit c = true)) /\
+  group_of L_tr "conversion_group" = [] /\ group_of L_tr "number_type_group" = [] /\
+  group_of L_en "conversion_group" = map s ["in"; "into"; "as"; "to"]%string /\
+  group_of L_en "number_type_group" = map s ["hex"; "hexadecimal"; "decimal"; "octal"; "binary"]%string.
+Proof.
+  split; [exact consts_parallel|]. split; [exact consts_translate|]. split; [exact unit_words_group|exact groups_only_en].
+Qed.
+
+(* every month number 1..12 has an entry with a long and a short name in both languages; the lexer's month
+   regexes carry the same entries and each matches its own two names *)
+Theorem C19_tables_parallel_months : forall lang,
+  In lang [L_en; L_tr] ->
+  map mi_month (months_of lang) = [1; 2; 3; 4; 5; 6; 7; 8; 9; 10; 11; 12]%Z /\
+  map snd (month_res lang) = months_of lang /\
+  (forall c mi, In (c, mi) (month_res lang) ->
+     re_is_match c (mi_long mi) = true /\ re_is_match c (mi_short mi) = true /\ mi_long mi <> [] /\ mi_short mi <> []).
+Proof. exact months_parallel. Qed.
+
+(* every configured spelling (for tr the ASCII spellings written next to the Turkish ones included): the month's
+   regex matches each of them, has exactly that many alternatives, the two names kept for printing are among them,
+   and it matches no spelling of another month (months_exclusive) *)
+Theorem C19_tables_month_spellings : forall lang,
+  In lang [L_en; L_tr] ->
+  length (month_res lang) = 12%nat /\ length (month_spellings lang) = 12%nat /\
+  (forall c mi ws, In ((c, mi), ws) (combine (month_res lang) (month_spellings lang)) ->
+     (forall w, In w ws -> re_is_match c w = true) /\ alternatives (cre_rx c) = length ws /\
+     In (mi_long mi) ws /\ In (mi_short mi) ws) /\
+  months_exclusive lang = true.
+Proof. exact months_all_spellings. Qed.
+
+Theorem C19_month_spellings_unfold :
+  month_spellings L_tr
+  = map (map u) [["ocak"; "oca"]; ["subat"; "şubat"; "sub"; "şub"]; ["mart"; "mar"]; ["nisan"; "nis"];
+                 ["mayis"; "mayıs"; "may"]; ["haziran"; "haz"]; ["temmuz"; "tem"];
+                 ["agustos"; "ağustos"; "agu"; "ağu"]; ["eylul"; "eylül"; "eyl"]; ["ekim"; "eki"];
+                 ["kasim"; "kasım"; "kas"]; ["aralik"; "aralık"; "ara"]]%string /\
+  month_spellings L_en
+  = map (map s) [["january"; "jan"]; ["february"; "feb"]; ["march"; "mar"]; ["april"; "apr"]; ["may"];
+                 ["june"; "jun"]; ["july"; "jul"]; ["august"; "aug"]; ["september"; "sep"]; ["october"; "oct"];
+                 ["november"; "nov"]; ["december"; "dec"]]%string /\
+  (forall lang, months_exclusive lang =
+     forallb (fun ci => forallb (fun wj => forallb (fun w => Bool.eqb (re_is_match (fst (fst ci)) w) (Nat.eqb (snd ci) (snd wj)))
+                                                   (fst wj))
+                                (combine (month_spellings lang) (seq 0 12)))
+             (combine (month_res lang) (seq 0 12))).
+Proof. split; [reflexivity|]. split; reflexivity. Qed.
+
+(* rules: tr has thirteen of the twenty rules of en (rules_only_en lists the other seven); a shared rule has the same
+   patterns up to keyword words and the order of its patterns; to_duration places its keyword differently
+   (`A to B` / `A B arası`); small_date of tr has three of the five spellings; as_duration cannot fire in tr *)
+Theorem C19_tables_parallel_rules :
+  shared_rules = ["as_duration"; "combine_durations"; "convert_money"; "division_cleanup"; "duration_parse";
+                  "find_numbers_percent"; "find_total_from_percent"; "number_of"; "number_off"; "number_on";
+                  "percent_calculator"; "to_duration"; "small_date"]%string /\
+  rules_only_en = ["at_date"; "convert_timezone"; "dynamic_type_convert"; "from_unixtime"; "number_type_convert";
+                   "time_with_timezone"; "to_unixtime"]%string /\
+  rule_names L_tr = map s shared_rules /\
+  (forall n, In n (rule_names L_en) <-> In n (map s shared_rules) \/ In n (map s rules_only_en)) /\
+  (forall n, In n (map s rules_only_en) -> ~ In n (rule_names L_tr)) /\
+  (forall n, In n shared_rules -> n <> "to_duration"%string -> n <> "small_date"%string ->
+     same_up_to_order (skel_of L_en n) (skel_of L_tr n) = true) /\
+  fsame_up_to_order (fskel_of L_en "to_duration") (fskel_of L_tr "to_duration") = true /\
+  incl_pats (skel_of L_tr "small_date") (skel_of L_en "small_date") = true /\
+  length (skel_of L_en "small_date") = 5%nat /\ length (skel_of L_tr "small_date") = 3%nat /\
+  map rule_name (filter dead_rule (rules_of L_tr)) = [s "as_duration"] /\
+  map rule_name (filter dead_rule (rules_of L_en)) = [].
+Proof. split; [reflexivity|]. split; [reflexivity|]. exact rules_parallel. Qed.
+
+(* the comparison functions used above mean what their names say *)
+Theorem C19_skeleton_examples :
+  skel_of L_en "number_on" = [[s "PERCENT:p"; s "#"; s "NUMBER|MONEY|:number"]; [s "NUMBER|MONEY|:number"; s "#"; s "PERCENT:p"]] /\
+  skel_of L_tr "duration_parse" = [[s "NUMBER:duration"; s "GROUP:type"]] /\
+  skel_of L_en "to_duration" = [[s "TIME:source"; s "#"; s "TIME:target"]; [s "DATE:source"; s "#"; s "DATE:target"]] /\
+  skel_of L_tr "to_duration" = [[s "TIME:source"; s "TIME:target"; s "#"]; [s "DATE:source"; s "DATE:target"; s "#"]] /\
+  fskel_of L_tr "to_duration" = [([s "TIME:source"; s "TIME:target"], 1%nat); ([s "DATE:source"; s "DATE:target"], 1%nat)] /\
+  same_up_to_order [[s "a"]; [s "b"; s "c"]] [[s "b"; s "c"]; [s "a"]] = true /\
+  same_up_to_order [[s "a"]; [s "b"; s "c"]] [[s "c"; s "b"]; [s "a"]] = false /\
+  same_up_to_order (skel_of L_en "to_duration") (skel_of L_tr "to_duration") = false.
+Proof. vm_compute. repeat split. Qed.
+
+(* operator words: every tr word is rewritten to the atom some en word is rewritten to; `divide` alone has no tr
+   counterpart; the lexer's alias regexes are the words of the table *)
+Theorem C19_tables_parallel_aliases :
+  (forall w r, In (w, r) (aliases_of L_tr) -> exists w', In (w', r) (aliases_of L_en)) /\
+  map fst (filter (fun kv => negb (existsb (fun kv' => str_eqb (snd kv') (snd kv)) (aliases_of L_tr))) (aliases_of L_en))
+    = [s "divide"] /\
+  alias_words_ok L_en = true /\ alias_words_ok L_tr = true /\
+  map (fun kv => (fst kv, snd kv)) (aliases_of L_en)
+    = [(s "add", s "[OPERATOR:+]"); (s "append", s "[OPERATOR:+]"); (s "divide", s "[OPERATOR:/]"); (s "euro", s "eur");
+       (s "exclude", s "[OPERATOR:-]"); (s "minus", s "[OPERATOR:-]"); (s "multiply", s "[OPERATOR:*]");
+       (s "sum", s "[OPERATOR:+]"); (s "times", s "[OPERATOR:*]")] /\
+  aliases_of L_tr
+    = [(u "carp", s "[OPERATOR:*]"); (u "carpi", s "[OPERATOR:*]"); (u "cikar", s "[OPERATOR:-]"); (u "cikart", s "[OPERATOR:-]");
+       (u "ekle", s "[OPERATOR:+]"); (u "eksi", s "[OPERATOR:-]"); (u "euro", s "eur"); (u "kere", s "[OPERATOR:*]");
+       (u "topla", s "[OPERATOR:+]"); (u "toplam", s "[OPERATOR:+]"); (u "çarp", s "[OPERATOR:*]"); (u "çarpı", s "[OPERATOR:*]");
+       (u "çıkar", s "[OPERATOR:-]"); (u "çıkart", s "[OPERATOR:-]")].
+Proof. exact aliases_parallel. Qed.
+
+(* ---- word-free features ---- *)
+(* the patterns made of NUMBER / MONEY / PERCENT / DATE / TIME fields and operators only are the same rules with the
+   same patterns in the same order in both languages (structurally equal, spans and texts included) *)
+Theorem C19_word_free_rules :
+  word_free_patterns L_en = word_free_patterns L_tr /\
+  map (fun np => (fst np, map (map tok_code) (snd np))) (word_free_patterns L_en)
+  = [(s "percent_calculator", [[s "PERCENT:percent"; s "NUMBER:number"]; [s "NUMBER:number"; s "PERCENT:percent"]]);
+     (s "small_date", [[s "NUMBER:day"; s "/"; s "NUMBER:month"; s "/"; s "NUMBER:year"]])].
+Proof. exact word_free_rules_equal. Qed.
+
+Section WordFreeShapes.
+Local Open Scope string_scope.
+(* on the token shapes of arithmetic, money, percentages (and the phrases whose pattern words are English in both
+   tables) the rule loops of en and tr produce the same state: for ALL binary64 values, number types, spans and
+   texts; operators and currency codes are the listed ones *)
+Theorem C19_word_free : forall bexec ny line b1 e1 b2 e2 b3 e3 b4 e4 b5 e5 b6 e6 x1 x2 x3 x4 x5 x6
+    (X Y V p : float) nt nt' nt'',
+  let N1 := tinfo b1 e1 (TNumber X nt) x1 in let N2 := tinfo b2 e2 (TNumber Y nt') x2 in
+  let N3 := tinfo b3 e3 (TNumber Y nt') x3 in let N5 := tinfo b5 e5 (TNumber V nt'') x5 in
+  let O2 c := tinfo b2 e2 (TOperator (ch c)) x2 in let O4 c := tinfo b4 e4 (TOperator (ch c)) x4 in
+  let M1 c := tinfo b1 e1 (TMoney X (s c)) x1 in let M3 c := tinfo b3 e3 (TMoney Y (s c)) x3 in
+  let P1 := tinfo b1 e1 (TPercent p) x1 in let P2 := tinfo b2 e2 (TPercent p) x2 in
+  let P3 := tinfo b3 e3 (TPercent p) x3 in let W2 w := tinfo b2 e2 (TText (s w)) (s w) in
+  (same_rewrite bexec ny line [N1] /\
+   same_rewrite bexec ny line [N1; O2 "+"; N3] /\ same_rewrite bexec ny line [N1; O2 "-"; N3] /\
+   same_rewrite bexec ny line [N1; O2 "*"; N3] /\ same_rewrite bexec ny line [N1; O2 "/"; N3] /\
+   same_rewrite bexec ny line [N1; N2] /\
+   same_rewrite bexec ny line [N1; O2 "+"; N3; O4 "*"; N5] /\
+   same_rewrite bexec ny line [N1; O2 "*"; N3; O4 "-"; N5] /\
+   same_rewrite bexec ny line [N1; O2 "-"; N3; O4 "/"; N5] /\
+   same_rewrite bexec ny line [tinfo b1 e1 (TOperator (ch "(")) x1; N2; tinfo b3 e3 (TOperator (ch "+")) x3;
+                               tinfo b4 e4 (TNumber V nt'') x4; tinfo b5 e5 (TOperator (ch ")")) x5]) /\
+  (same_rewrite bexec ny line [M1 "USD"] /\ same_rewrite bexec ny line [M1 "TRY"] /\
+   same_rewrite bexec ny line [M1 "USD"; O2 "+"; M3 "USD"] /\
+   same_rewrite bexec ny line [M1 "USD"; O2 "-"; M3 "EUR"] /\
+   same_rewrite bexec ny line [M1 "EUR"; O2 "*"; N3] /\ same_rewrite bexec ny line [M1 "TRY"; O2 "/"; N3] /\
+   same_rewrite bexec ny line [M1 "USD"; W2 "try"] /\ same_rewrite bexec ny line [M1 "EUR"; W2 "usd"] /\
+   same_rewrite bexec ny line [M1 "TRY"; W2 "eur"]) /\
+  (same_rewrite bexec ny line [P1] /\
+   same_rewrite bexec ny line [N1; O2 "+"; P3] /\ same_rewrite bexec ny line [N1; O2 "-"; P3] /\
+   same_rewrite bexec ny line [M1 "USD"; O2 "+"; P3] /\ same_rewrite bexec ny line [M1 "EUR"; O2 "-"; P3] /\
+   same_rewrite bexec ny line [P1; N2] /\ same_rewrite bexec ny line [N1; P2]) /\
+  (same_rewrite bexec ny line [P1; W2 "on"; N3] /\ same_rewrite bexec ny line [P1; W2 "of"; N3] /\
+   same_rewrite bexec ny line [P1; W2 "off"; N3] /\ same_rewrite bexec ny line [N1; W2 "on"; P3] /\
+   same_rewrite bexec ny line [P1; W2 "of"; M3 "USD"] /\ same_rewrite bexec ny line [M1 "TRY"; W2 "off"; P3] /\
+   same_rewrite bexec ny line [N1; W2 "is"; tinfo b3 e3 (TText (s "what")) x3; tinfo b4 e4 (TOperator 37) x4;
+                               tinfo b5 e5 (TText (s "of")) x5; tinfo b6 e6 (TNumber V nt'') x6] /\
+   same_rewrite bexec ny line [N1; W2 "is"; P3; tinfo b4 e4 (TText (s "of")) x4; tinfo b5 e5 (TText (s "what")) x5]).
+Proof.
+  intros. split; [|split; [|split]].
+  - exact (shapes_arithmetic bexec ny line b1 e1 b2 e2 b3 e3 b4 e4 b5 e5 x1 x2 x3 x4 x5 X Y V nt nt' nt'').
+  - exact (shapes_money bexec ny line b1 e1 b2 e2 b3 e3 x1 x2 x3 X Y nt').
+  - exact (shapes_percent bexec ny line b1 e1 b2 e2 b3 e3 x1 x2 x3 X Y p nt nt').
+  - exact (shapes_phrases bexec ny line b1 e1 b2 e2 b3 e3 b4 e4 b5 e5 b6 e6 x1 x3 x4 x5 x6 X Y V p nt nt' nt'').
+Qed.
+
+(* d/m/y (concrete numbers, any spans and texts) and already-lexed times and dates (any values) *)
+Theorem C19_word_free_dates : forall bexec ny line b1 e1 b2 e2 b3 e3 b4 e4 b5 e5 x1 x2 x3 x4 x5 nt nt' nt'' d d' t t' tz tz',
+  let DMY (dd mm yy : Z) := [tinfo b1 e1 (TNumber (fofZ dd) nt) x1; tinfo b2 e2 (TOperator (ch "/")) x2;
+                             tinfo b3 e3 (TNumber (fofZ mm) nt') x3; tinfo b4 e4 (TOperator (ch "/")) x4;
+                             tinfo b5 e5 (TNumber (fofZ yy) nt'') x5] in
+  (same_rewrite bexec ny line (DMY 29 2 2020) /\ same_rewrite bexec ny line (DMY 31 12 1999) /\
+   same_rewrite bexec ny line (DMY 1 1 2021) /\ same_rewrite bexec ny line (DMY 31 4 2021) /\
+   same_rewrite bexec ny line (DMY 12 13 2021))%Z /\
+  (same_rewrite bexec ny line [tinfo b1 e1 (TTime t tz) x1] /\
+   same_rewrite bexec ny line [tinfo b1 e1 (TDate d tz) x1] /\
+   same_rewrite bexec ny line [tinfo b1 e1 (TDate d tz) x1; tinfo b2 e2 (TOperator (ch "-")) x2; tinfo b3 e3 (TDate d' tz') x3] /\
+   same_rewrite bexec ny line [tinfo b1 e1 (TTime t tz) x1; tinfo b2 e2 (TOperator (ch "+")) x2; tinfo b3 e3 (TTime t' tz') x3]).
+Proof.
+  intros. split.
+  - exact (shapes_dmy bexec ny line b1 e1 b2 e2 b3 e3 b4 e4 b5 e5 x1 x2 x3 x4 x5 nt nt' nt'').
+  - exact (shapes_time_date bexec ny line b1 e1 b2 e2 b3 e3 x1 x2 x3 d d' t t' tz tz').
+Qed.
+
+End WordFreeShapes.
+
+(* a number, a percentage, money, a time, a quantity is printed without reading the language: any configuration,
+   any two tags *)
+Theorem C19_word_free_prints : forall {F} {NF : Num F} (cfg : config F) (l l' : str) ny (i : item F),
+  match i with IDuration _ | IDate _ _ | IDateTime _ _ => False | _ => True end ->
+  format_result cfg l ny (AItem i) = format_result cfg l' ny (AItem i).
+Proof. exact @print_word_free. Qed.
+
+(* ---- dates and durations are printed with the language's own month names and unit words ---- *)
+Theorem C19_prints :
+  (forall lang, In lang [L_en; L_tr] ->
+     map (fun mi => (mi_long mi, mi_short mi)) (months_of lang) = combine (long_names lang) (short_names lang) /\
+     option_map (fun f => (lf_language f, assoc (s "current_year") (lf_date f), assoc (s "full_date") (lf_date f)))
+                (assoc lang (cf_format default_config))
+     = Some (lang, Some (s "{day} {month_long}"), Some (s "{day} {month_short} {year}")) /\
+     cf_tz default_config = UTC0) /\
+  (forall lang m, In lang [L_en; L_tr] -> In m (seq 1 12) ->
+     let day := days_from_civil 2021 (Z.of_nat m) 15 in
+     date_print default_config lang 2021 day UTC0 = s "15 " ++ uppercase_first_letter (nth (m - 1) (long_names lang) []) /\
+     date_print default_config lang 2022 day UTC0
+     = s "15 " ++ uppercase_first_letter (nth (m - 1) (short_names lang) []) ++ s " 2021") /\
+  (forall lang fmt k c, In lang [L_en; L_tr] -> assoc lang (cf_format default_config) = Some fmt ->
+     duration_formatter fmt (dur_placeholder k) c k = Z_to_str c ++ s " " ++ unit_word lang k c ++ s " ") /\
+  (forall lang k c, In lang [L_en; L_tr] -> In c [1; 2; 3]%Z ->
+     duration_print default_config lang (c * dur_unit k) = Z_to_str c ++ s " " ++ unit_word lang k c).
+Proof.
+  split; [exact month_tables|]. split; [exact month_prints|]. split; [exact unit_words_printed|exact duration_prints].
+Qed.
+
+(* the word tables named in C19_prints *)
+Theorem C19_prints_words :
+  long_names L_en = map s ["january"; "february"; "march"; "april"; "may"; "june"; "july"; "august"; "september";
+                           "october"; "november"; "december"]%string /\
+  short_names L_en = map s ["jan"; "feb"; "mar"; "apr"; "may"; "jun"; "jul"; "aug"; "sep"; "oct"; "nov"; "dec"]%string /\
+  long_names L_tr = map u ["ocak"; "şubat"; "mart"; "nisan"; "mayıs"; "haziran"; "temmuz"; "ağustos"; "eylül"; "ekim";
+                           "kasım"; "aralık"]%string /\
+  short_names L_tr = map u ["oca"; "şub"; "mar"; "nis"; "may"; "haz"; "tem"; "ağu"; "eyl"; "eki"; "kas"; "ara"]%string /\
+  map (fun k => (unit_word L_en k 1, unit_word L_en k 2, unit_word L_tr k 1, unit_word L_tr k 2)) all_kinds
+  = [(s "second", s "seconds", u "saniye", u "saniye"); (s "minute", s "minutes", u "dakika", u "dakika");
+     (s "hour", s "hours", u "saat", u "saat"); (s "day", s "days", u "gün", u "gün");
+     (s "week", s "weeks", u "hafta", u "hafta"); (s "month", s "months", u "ay", u "ay");
+     (s "year", s "years", u "yıl", u "yıl")] /\
+  u "şubat ARALIK ı İ €" = [351; 117; 98; 97; 116; 32; 65; 82; 65; 76; 73; 75; 32; 305; 32; 304; 32; 8364]%N.
+Proof. vm_compute. repeat split. Qed.
+
+(* ---- whole lines through the whole model (lexer, rules, parser, interpreter, printer) ---- *)
+(* 26 lines and their word-by-word translations evaluate to the same values (and every en line has a value) *)
+Theorem C19_pipeline :
+  map (fun p => values L_en (u (fst p))) line_pairs = map (fun p => values L_tr (u (snd p))) line_pairs /\
+  forallb (fun p => all_items (values L_en (u (fst p)))) line_pairs = true /\
+  length line_pairs = 26%nat /\
+  (values L_en (u ("x = 3 days" ++ NL ++ "x + 2 hours")) = values L_tr (u ("x = 3 gün" ++ NL ++ "x + 2 saat")) /\
+   all_items (values L_en (u ("x = 3 days" ++ NL ++ "x + 2 hours"))) = true /\
+   values L_en (u ("start = 3 march 2021" ++ NL ++ "start add 10 days"))
+   = values L_tr (u ("start = 3 mart 2021" ++ NL ++ "start ekle 10 gün")) /\
+   all_items (values L_en (u ("start = 3 march 2021" ++ NL ++ "start add 10 days"))) = true).
+Proof.
+  destruct pairs_equal_values as [A B]. split; [exact A|]. split; [exact B|]. split; [reflexivity|exact pairs_with_variables].
+Qed.
+
+Theorem C19_pipeline_prints :
+  prints L_en (u "3 february 2021") = Some [Some (u "3 Feb 2021")] /\
+  prints L_tr (u "3 şubat 2021") = Some [Some (u "3 Şub 2021")] /\
+  prints L_en (u "17 august") = Some [Some (u "17 August")] /\
+  prints L_tr (u "17 ağustos") = Some [Some (u "17 Ağustos")] /\
+  prints L_en (u "12/05/2021") = Some [Some (u "12 May 2021")] /\
+  prints L_tr (u "12/05/2021") = Some [Some (u "12 May 2021")] /\
+  prints L_en (u "12/12/2021") = Some [Some (u "12 Dec 2021")] /\
+  prints L_tr (u "12/12/2021") = Some [Some (u "12 Ara 2021")] /\
+  prints L_en (u "1 year 2 months 3 weeks 4 days 5 hours 6 minutes 7 seconds")
+  = Some [Some (u "1 year 2 months 3 weeks 4 days 5 hours 6 minutes 7 seconds")] /\
+  prints L_tr (u "1 yıl 2 ay 3 hafta 4 gün 5 saat 6 dakika 7 saniye")
+  = Some [Some (u "1 yıl 2 ay 3 hafta 4 gün 5 saat 6 dakika 7 saniye")] /\
+  prints L_en (u "1 day 1 hour") = Some [Some (u "1 day 1 hour")] /\
+  prints L_tr (u "1 gun 1 saat") = Some [Some (u "1 gün 1 saat")] /\
+  prints L_tr (u "1 yil") = Some [Some (u "1 yıl")] /\
+  prints L_en (u "1 january 2021 to 1 march 2021") = Some [Some (u "1 month 4 weeks 1 day")] /\
+  prints L_tr (u "1 ocak 2021 1 mart 2021 arası") = Some [Some (u "1 ay 4 hafta 1 gün")].
+Proof. exact pairs_printed. Qed.
+
+(* word-free lines: the same values AND the same printed text under en and tr *)
+Theorem C19_pipeline_word_free :
+  map (fun t => (values L_en (u t), prints L_en (u t))) word_free_lines
+  = map (fun t => (values L_tr (u t), prints L_tr (u t))) word_free_lines /\
+  length word_free_lines = 36%nat /\
+  (let t1 := u ("x = 5" ++ NL ++ "x * 2") in
+   let t2 := u ("a = $10" ++ NL ++ "b = 3" ++ NL ++ "a * b") in
+   let t3 := u ("rate = 8%" ++ NL ++ "250 + rate") in
+   (values L_en t1, prints L_en t1) = (values L_tr t1, prints L_tr t1) /\ all_items (values L_en t1) = true /\
+   (values L_en t2, prints L_en t2) = (values L_tr t2, prints L_tr t2) /\ all_items (values L_en t2) = true /\
+   (values L_en t3, prints L_en t3) = (values L_tr t3, prints L_tr t3) /\ all_items (values L_en t3) = true).
+Proof. split; [exact word_free_equal|]. split; [reflexivity|exact word_free_variables]. Qed.
+
+(* ---- the ASCII spellings of the Turkish month names (was known finding C19-K1, repaired by /repo 2b32105) ---- *)
+Theorem C19_ascii_spellings_read :
+  values L_en (u "3 february 2021") = Some [date64 2021 2 3] /\
+  values L_tr (u "3 şubat 2021") = Some [date64 2021 2 3] /\
+  values L_tr (u "3 subat 2021") = Some [date64 2021 2 3] /\
+  values L_tr (u "3 sub 2021") = Some [date64 2021 2 3] /\
+  values L_tr (u "5 aralik 2020") = Some [date64 2020 12 5] /\
+  values L_tr (u "3 agu 2021") = Some [date64 2021 8 3] /\
+  values L_tr (u "12 agustos 2020 + 2 gun") = Some [date64 2020 8 14] /\
+  values L_tr (u "17 mayis") = values L_en (u "17 may") /\
+  prints L_tr (u "3 subat 2021") = Some [Some (u "3 Şub 2021")] /\
+  prints L_tr (u "5 aralik 2020") = Some [Some (u "5 Ara 2020")].
+Proof. exact ascii_spellings_read. Qed.
+
+(* ---- the recorded defect (known_findings.json C19-K2), reproduced by the model ---- *)
+(* Rust's to_lowercase is not Turkish: İ -> i + U+0307 (and I -> i): an upper-case Turkish word is recognised only when
+   its lower-cased image happens to be a configured spelling (ARALIK -> aralik) *)
+Theorem C19_turkish_upper_refuted :
+  values L_en (u "3 APRIL 2020") = Some [date64 2020 4 3] /\
+  values L_tr (u "3 nisan 2020") = Some [date64 2020 4 3] /\
+  values L_tr (u "3 Nisan 2020") = Some [date64 2020 4 3] /\
+  values L_tr (u "5 ŞUBAT 2020") = Some [date64 2020 2 5] /\
+  values L_tr (u "3 NİSAN 2020") = Some [num64 2023] /\
+  values L_tr (u "5 HAZİRAN 2020") = Some [num64 2025] /\
+  values L_tr (u "26 EKİM 2020") = Some [num64 2046] /\
+  to_lowercase (u "NİSAN") = [110; 105; 775; 115; 97; 110]%N /\ to_lowercase (u "NİSAN") <> u "nisan" /\
+  to_lowercase (u "ARALIK") = u "aralik" /\ u "aralik" <> u "aralık" /\
+  values L_tr (u "5 ARALIK 2020") = Some [date64 2020 12 5] /\
+  values L_tr (u "10 çarpı 3") = Some [num64 30] /\ values L_en (u "10 TIMES 3") = Some [num64 30] /\
+  values L_tr (u "10 CARPI 3") = Some [num64 30] /\
+  values L_tr (u "10 ÇARPI 3") = Some [num64 13] /\ values L_tr (u "10 EKSİ 3") = Some [num64 13].
+Proof. exact turkish_upper_refuted. Qed.
+
+(* ---- the full statement and what is proved of it ---- *)
+(* C19_full translation: for every clock and every pair of lines related by [translation] the en evaluation of the
+   first and the tr evaluation of the second give the same values line by line.  Proved: the tag only selects
+   tables (all lines); value equality on the listed pairs; refuted when the translation may use Turkish upper
+   case.  NOT proved: value equality for every word-by-word translation (it needs a
+   simulation through lexer and rule engine between the two tables); that part is covered by the correspondence
+   check only (tools/props/C19.py: generated pairs, model = crate on every case, oracle en = tr). *)
+Theorem C19_full_partial :
+  (forall translation, C19_full translation <->
+     forall ck en_line tr_line, translation en_line tr_line ->
+       option_map (map (option_map (fun o => match lo_result o with LErr m => inl m | LOk _ a => inr a end)))
+                  (match exec64 ck default_config L_en en_line with Ok r => Some (er_lines r) | Panic _ => None end)
+       = option_map (map (option_map (fun o => match lo_result o with LErr m => inl m | LOk _ a => inr a end)))
+                    (match exec64 ck default_config L_tr tr_line with Ok r => Some (er_lines r) | Panic _ => None end)) /\
+  (forall ck l l' text, same_tables LX default_config l l' ->
+     exec64 ck default_config l text = exec64 ck default_config l' text) /\
+  (forall a b, listed_translation a b -> values L_en a = values L_tr b) /\
+  ~ C19_full (fun a b => a = u "3 APRIL 2020" /\ b = u "3 NİSAN 2020").
+Proof. split; [intro; reflexivity|exact full_partial]. Qed.
+
+Print Assumptions C19_lang_only_selects_tables.
+Print Assumptions C19_same_tables_unfold.
+Print Assumptions C19_unknown_tags_alike.
+Print Assumptions C19_tables_languages.
+Print Assumptions C19_tables_parallel_constants.
+Print Assumptions C19_tables_parallel_months.
+Print Assumptions C19_tables_month_spellings.
+Print Assumptions C19_month_spellings_unfold.
+Print Assumptions C19_tables_parallel_rules.
+Print Assumptions C19_skeleton_examples.
+Print Assumptions C19_tables_parallel_aliases.
+Print Assumptions C19_word_free_rules.
+Print Assumptions C19_word_free.
+Print Assumptions C19_word_free_dates.
+Print Assumptions C19_word_free_prints.
+Print Assumptions C19_prints.
+Print Assumptions C19_prints_words.
+Print Assumptions C19_pipeline.
+Print Assumptions C19_pipeline_prints.
+Print Assumptions C19_pipeline_word_free.
+Print Assumptions C19_ascii_spellings_read.
+Print Assumptions C19_turkish_upper_refuted.
+Print Assumptions C19_full_partial.
